@@ -219,7 +219,7 @@ pub fn case_strategy() -> BoxedStrategy<Case> {
             }
             Case {
                 ent,
-                req: ReqSpec { method, headers },
+                req: ReqSpec { method, headers, version: (order % 7) as u8 % 5 },
                 malformed,
             }
         })
@@ -257,6 +257,7 @@ fn many_ranges_strategy() -> BoxedStrategy<Case> {
             let mut req = ReqSpec {
                 method: if head { "HEAD".into() } else { "GET".into() },
                 headers: vec![("range".into(), Bs(v.into_bytes()))],
+                version: (salt % 5) as u8,
             };
             if mode == 3 {
                 req.headers.push(("if-range".into(), etag.clone()));
@@ -302,7 +303,7 @@ pub fn run(cx: &Cx) -> Acc {
                             }
                             let c = Case {
                                 ent: EntitySpec { etag: etag.map(|t| Bs::s(t)), mtime: crate::entity::Mtime::At(reqgen::T0, 0), ..EntitySpec::simple(len) },
-                                req: ReqSpec { method: if (at + k) % 2 == 0 { "GET".into() } else { "HEAD".into() }, headers },
+                                req: ReqSpec { method: if (at + k) % 2 == 0 { "GET".into() } else { "HEAD".into() }, headers, version: 0 },
                                 malformed: 1,
                             };
                             acc.run_case(cx, "utf8-in-values", &c, |acc| check(&c, acc));
